@@ -15,8 +15,22 @@ out = tempfile.mkdtemp(prefix="baseline_")
 junit = os.path.join(out, "junit.xml")
 env = dict(os.environ)
 env.pop("BASILISP_VERIF", None)
+cwd = "/repo"
+args = sys.argv[1:]
+wt = None
+if args and args[0] == "--worktree":
+    # run on a scratch worktree of /repo's HEAD (so /repo can be edited meanwhile); removed afterwards
+    args = args[1:]
+    wt = tempfile.mkdtemp(prefix="bl_", dir="/tmp")
+    subprocess.run(["git", "-C", "/repo", "worktree", "add", "--detach", "-f", wt, "HEAD"], check=True,
+                   stdout=subprocess.DEVNULL, stderr=subprocess.DEVNULL)
+    so = os.environ.get("BASELINE_SO", "/repo/src/basilisp/_lang.abi3.so")
+    shutil.copy(so, os.path.join(wt, "src/basilisp/_lang.abi3.so"))
+    env["PYTHONPATH"] = os.path.join(wt, "src")
+    env.pop("PYTHONDONTWRITEBYTECODE", None)
+    cwd = wt
 p = subprocess.run(["/venv/bin/python", "-m", "pytest", "-ra", "-q", "-p", "no:cacheprovider", "--timeout=900",
-                    "--continue-on-collection-errors", "--junitxml=" + junit] + sys.argv[1:], cwd="/repo", env=env,
+                    "--continue-on-collection-errors", "--junitxml=" + junit] + args, cwd=cwd, env=env,
                    stdout=subprocess.PIPE, stderr=subprocess.STDOUT, text=True)
 print(p.stdout[-1500:])
 passed = set()
@@ -28,4 +42,8 @@ print(f"stable baseline: {len(stable)}; passed now: {len(passed)}; baseline test
 for m in missing[:40]:
     print("  NOT PASSING:", m)
 shutil.rmtree(out, ignore_errors=True)
+if wt:
+    subprocess.run(["git", "-C", "/repo", "worktree", "remove", "--force", wt], check=False)
+    shutil.rmtree(wt, ignore_errors=True)
+    subprocess.run(["git", "-C", "/repo", "worktree", "prune"], check=False)
 sys.exit(1 if missing else 0)
